@@ -1024,3 +1024,10 @@ Proof.
     destruct (bshuf_fold B more (b, d, o)) as [[[b2 d2] o2]|] eqn:E2; [|discriminate].
     intros H. injection H as <- <-. eapply bshuf_fold_out_prefix. exact E2.
 Qed.
+
+(* ids 0 .. n-1 are distinct (the non-vacuity example of the NoDup hypothesis) *)
+Lemma NoDup_idx n : NoDup (idx n).
+Proof.
+  unfold idx. apply FinFun.Injective_map_NoDup; [|apply seq_NoDup].
+  intros a b H. apply Nat2Z.inj. exact H.
+Qed.
